@@ -54,6 +54,13 @@ def split_off (at_ : Nat) (s : SB) : SB × Outcome Bytes :=
 def vec_drain (a b : Nat) (s : SB) : SB × Outcome Unit :=
   if a ≤ b ∧ b ≤ s.2 then (((text s).take a ++ (text s).drop b, s.2 - (b - a)), .ok ()) else (s, .panic)
 
+/-- `self.vec.splice(range, bytes)` with the `Splice` dropped at once (result level: `Str.spliceBytes`; the element-wise
+`Splice` belongs to the `vec` family) -/
+def vec_splice (ovf : Bool) (range : Bd × Bd) (t : Bytes) (s : SB) : SB × Outcome Unit :=
+  match spliceBytes (vecDrainOvf ovf) (text s) range.1 range.2 t with
+  | .ok r => ((r, r.length), .ok ())
+  | _ => (s, .panic)
+
 /-- `self.chars().rev().next()`: the last character and its encoded length (`bad`: the text is not UTF-8) -/
 def last_char (s : SB) : SB × Outcome (Option (Char × Nat)) :=
   let t := text s
